@@ -10,6 +10,7 @@ PRE_BM = HDR + 'Require Import WV.model.C18Bookmarks.\n'
 PRE_OL = HDR + 'Require Import WV.model.C18Outline.\n'
 PRE_LK = HDR + 'Require Import WV.model.C18Links.\n'
 PRE_DT = HDR + 'Require Import WV.model.C18Date.\n'
+PRE_HR = HDR + 'Require Import WV.model.C18Href.\n'
 PRE_AB = 'From Coq Require Import QArith List.\nImport ListNotations.\nRequire Import WV.model.C18Aabb.\nOpen Scope Q_scope.\n'
 
 
@@ -479,6 +480,128 @@ def stream_aabb(run, rng, n):
                     oblique=sum(1 for c, _ in kept if kind(c) != 'none' and kind(c)[1]))
 
 
+# ================================================================================ 3c. spellings of internal links
+
+# anchor names with reserved and non-ASCII characters.  Non-ASCII names start with a non-ASCII BMP character so that the
+# /Dests name tree stays byte-sorted (open finding dests-not-byte-sorted is probed separately).
+NAMES = ['x', 'a b', 'a+b', 'a&b=c', 'q?r', '50%', '(x)', "it's", 'a/b', 'a#b', 'A.b-c_d~e', 'a:b@c', 'x%y', '100%25',
+         'élan', 'é caf é', '中文', 'ü+1', 'ñ/ñ?ñ', 'éa%b', 'Ωmega', 'ßx']
+SAME_DOC = ['doc.html', './doc.html', '../dir/doc.html', 'http://base.test/dir/doc.html', '//base.test/dir/doc.html',
+            '/dir/doc.html', '/dir/../dir/doc.html']
+OTHER_DOC = ['other.html', 'http://e.test/dir/doc.html', 'doc.html?q=1', 'doc.html/', '/doc.html', 'https://base.test/dir/doc.html',
+             'http://base.test/dir/doc.htm', 'mailto:a@b.test']
+
+
+def spell_fragment(rng, name, p_enc=0.5):
+    """one spelling of `name` as a URL fragment: each character raw or percent-encoded (UTF-8), hexadecimal digits in
+    either case; '%' itself is always encoded.  Returns (text, Coq `how` list per byte)."""
+    out, hows = '', []
+    for ch in name:
+        bs = ch.encode('utf-8')
+        if ch == '%' or rng.random() < p_enc:
+            for b in bs:
+                u1, u2 = rng.random() < 0.5, rng.random() < 0.5
+                h = '%02X' % b
+                out += '%' + (h[0] if u1 else h[0].lower()) + (h[1] if u2 else h[1].lower())
+                hows.append('(Enc %s %s)' % (blit(u1), blit(u2)))
+        else:
+            out += ch
+            hows += ['Raw'] * len(bs)
+    return out, hows
+
+
+def zs(bs):
+    return '[%s]' % '; '.join(zlit(b) for b in bs)
+
+
+def gen_href_case(rng):
+    base = rng.choice([BASE, BASE, BASE, None])
+    r = rng.random()
+    name = rng.choice(NAMES)
+    frag, _ = spell_fragment(rng, name, rng.choice([0, 0.3, 0.7, 1]))
+    if r < 0.04:
+        return dict(base=base, href=rng.choice(['', ' ', '\t']), attr=('empty',), want=None)
+    if r < 0.12:          # empty fragment
+        href = rng.choice(['#', 'doc.html#', BASE + '#', ' # '])
+        return dict(base=base, href=href, attr=('url', 0, ''), want=None)
+    if r < 0.4:
+        return dict(base=base, href=rng.choice(['', ' ', '\n']) + '#' + frag, attr=('bare', frag), want=name)
+    if r < 0.8:
+        doc = rng.choice(SAME_DOC)
+        return dict(base=base, href=doc + '#' + frag, attr=('url', 0, frag), want=name if base else None)
+    i = rng.randrange(len(OTHER_DOC))
+    frag = rng.choice([frag, frag, ''])
+    return dict(base=base, href=OTHER_DOC[i] + ('#' + frag if frag else ''), attr=('url', 1 + i, frag), want=None)
+
+
+def coq_href_case(c, o):
+    a = c['attr']
+    if a[0] == 'empty':
+        attr = 'AEmpty'
+    elif a[0] == 'bare':
+        attr = '(ABare %s)' % zs(a[1].encode('utf-8'))
+    else:
+        attr = '(AUrl %s %s)' % (zlit(a[1]), zs(a[2].encode('utf-8')))
+    if o is None:
+        out = 'LNone'
+    elif o[0] == 'internal':
+        out = '(LInternal %s)' % zs(o[1].encode('utf-8'))
+    else:
+        uri = o[1]
+        out = '(LExternal %s %s)' % (zlit(a[1] if a[0] == 'url' else -1),
+                                     zs(uri.split('#', 1)[1].encode('utf-8') if '#' in uri else b''))
+    want = 'None' if c['want'] is None else '(Some %s)' % zs(c['want'].encode('utf-8'))
+    return '(%s, %s, %s, %s)' % ('None' if c['base'] is None else '(Some 0)', attr, want, out)
+
+
+def stream_hrefs(run, rng, n):
+    fixed = [dict(base=BASE, href='doc.html#caf%C3%A9', attr=('url', 0, 'caf%C3%A9'), want='café'),
+             dict(base=BASE, href=BASE + '#café', attr=('url', 0, 'café'), want='café'),
+             dict(base=BASE, href='#caf%c3%A9', attr=('bare', 'caf%c3%A9'), want='café'),
+             dict(base=None, href='#a%20b', attr=('bare', 'a%20b'), want='a b')]
+    cases = corpus('hrefs') + fixed + [gen_href_case(rng) for _ in range(n)]
+    outs = common.run_impl('impl_c18', 'hrefs', [dict(base=c['base'], href=c['href']) for c in cases])
+    coq, kept = [], []
+    for c, (st, o) in zip(cases, outs):
+        if st != 'ok':
+            run.fail('get_link_attribute raised %s' % (o,), {'stream': 'hrefs', 'case': c, 'outcome': o}, signature='href-raise')
+            continue
+        coq.append(coq_href_case(c, o))
+        kept.append((c, o))
+    try:
+        masks = common.eval_cases('c18hr', PRE_HR, 'option Z * attr * option (list Z) * linkres', coq, 'href_judge',
+                                  per_file=max(40, len(coq) // 12))
+    except RuntimeError as exc:
+        run.oblige('corr:hrefs-direct', False, str(exc))
+        return
+    mism = [(c, o) for (c, o), m in zip(kept, masks) if m & 1]
+    run.oblige('corr:hrefs-direct(model get_link_attribute on (document, fragment bytes) vs urls.get_link_attribute)', not mism,
+               'first disagreements: %s' % mism[:3])
+    for (c, o), m in zip(kept, masks):
+        if m & 2:
+            run.fail('get_link_attribute(href=%r, base=%r) = %r: %s' % (
+                c['href'], c['base'], o, 'a spelling of anchor %r of this document is not an internal link to it' % c['want']
+                if c['want'] is not None else 'a link elsewhere is taken for internal'),
+                {'stream': 'hrefs', 'case': c, 'impl': o}, signature='href-spelling')
+            break
+    # dedicated probe: document URL that needs escaping (finding: the base URL is compared without iri_to_uri)
+    probes = [dict(base='http://base.test/dir/döc.html', href='döc.html#x'), dict(base='http://base.test/dir/a b.html', href='a b.html#x')]
+    for c, (st, o) in zip(probes, common.run_impl('impl_c18', 'hrefs', probes)):
+        if st != 'ok' or o != ['internal', 'x']:
+            run.fail('get_link_attribute(href=%r, base=%r) = %r: a reference to the document itself is not internal when '
+                     'the document URL contains characters that iri_to_uri escapes' % (c['href'], c['base'], o),
+                     {'stream': 'hrefs-probe', 'case': c, 'impl': o}, signature='selfurl-base-not-normalised')
+            break
+    run.count('hrefs-direct', len(kept), [(c['base'] is None, c['attr'][0], c['href']) for c, _ in kept],
+              samples=[{'case': kept[-1][0], 'impl': kept[-1][1]}])
+    run.stream_info('hrefs-direct', rule='%d anchor names with reserved, non-ASCII and %% characters, each character raw or '
+                    'percent-encoded with upper/lower case digits; written as bare #fragment, as 7 relative/absolute '
+                    'spellings of the document URL, as 8 other documents, with empty fragment, empty attribute, with and '
+                    'without a base URL; direct call of urls.get_link_attribute on a stub element' % len(NAMES),
+                    internal_expected=sum(1 for c, _ in kept if c['want'] is not None),
+                    percent_encoded=sum(1 for c, _ in kept if '%' in c['href']))
+
+
 # ================================================================================ 4. dates
 
 WS = ['', '', '', ' ', '\t', '\n', ' \r\n', '\f']
@@ -710,7 +833,9 @@ def stream_dates(run, rng, n):
 # ================================================================================ 5. render monitor
 
 CSS = ('@page{size:200px 100px;margin:0}html,body{margin:0;font-family:weasyprint;font-size:10px;line-height:10px}'
-       'h1,h2,h3,h4,h5,h6,p,div,section,article{display:block;margin:0;font-size:10px;font-weight:normal}a{color:black}')
+       'h1,h2,h3,h4,h5,h6,p,div,section,article{display:block;margin:0;font-size:10px;font-weight:normal}a{color:black}'
+       'table{border-spacing:0}td,th,caption{padding:0;font-size:10px;font-weight:normal;text-align:left}'
+       'ul,ol{margin:0;padding:0 0 0 20px}li{margin:0}')
 WORDS = ['abc', 'abcd', 'aaaa', 'bbbbbbbb', 'cdcdcd', 'hhh', 'efgh', 'ab', 'dddddddddd']
 UNI = ['é', '中文', 'ß', '😀', 'Ω', '(', ')', '\\', '"', "'", 'ü']
 BASE = 'http://base.test/dir/doc.html'
@@ -809,10 +934,16 @@ def gen_doc(rng, ascii_ids, mode=None):
     k = [0]
     exp = dict(bookmarks=[], anchors=[], links=[], files={}, meta={}, attachments=[], tboxes={})
     rules = []
+    mode = mode or rng.choice(['flat', 'flat', 'nested', 'nested', 'transform', 'mixed', 'spellings', 'boxes', 'boxes'])
     pool = ['s%d' % i for i in range(rng.choice([2, 4, 8]))]
+    if mode == 'spellings':
+        pool = rng.sample(NAMES, rng.choice([3, 6, 10]))
     if not ascii_ids:
         pool += ['aé', 'ü1', 'z中']
-    mode = mode or rng.choice(['flat', 'flat', 'nested', 'nested', 'transform', 'mixed'])
+    # where the document URL comes from: the base_url argument, a <base href> element, or nowhere
+    basekind = rng.choice(['arg', 'arg', 'element', 'none']) if mode == 'spellings' else rng.choice(['arg'] * 8 + ['element', 'none'])
+    upool = ['u%d' % i for i in range(14)]       # unique ids for table parts, floats, ...
+    unext = [0]
     budget = [rng.choice([3, 8, 20, 40, 70])]
     nh = [0]
     max_h = rng.choice([0, 3, 80]) if mode == 'flat' else 80
@@ -829,20 +960,24 @@ def gen_doc(rng, ascii_ids, mode=None):
         kk = key()
         r = rng.random()
         rel = ''
-        if r < 0.35:
-            name = rng.choice(pool + ['h1', 'h2', 'h3', 'h5'])
-            href, kind, target = '#' + name, 'internal', name
-        elif r < 0.45:
-            name = 'missing%d' % rng.randint(0, 3)
-            href, kind, target = '#' + name, 'internal', name
-        elif r < 0.55:
-            name = rng.choice(pool)
-            href, kind, target = BASE + '#' + name, 'internal', name
-        elif r < 0.7:
-            href = rng.choice(['http://e.test/', 'https://e.test/a/b?q=1#f', 'mailto:a@b.test'])
+        if r < 0.55:
+            if r < 0.45:
+                name = rng.choice(pool + ['h1', 'h2', 'h3', 'h5'] + upool[:8])
+            else:
+                name = 'missing%d' % rng.randint(0, 3)
+            frag = name
+            if mode == 'spellings' or '%' in name or rng.random() < 0.25:
+                frag = spell_fragment(rng, name, rng.choice([0, 0.3, 0.7, 1]))[0]
+            doc = ''
+            if basekind != 'none' and rng.random() < (0.6 if mode == 'spellings' else 0.25):
+                doc = rng.choice(SAME_DOC)               # the document itself, spelled as a URL
+            href, kind, target = doc + '#' + frag, 'internal', name
+        elif r < 0.7 or basekind == 'none':
+            href = rng.choice(['http://e.test/', 'https://e.test/a/b?q=1#f', 'mailto:a@b.test', 'http://e.test/dir/doc.html#s1'])
             kind, target = 'external', href
         elif r < 0.85:
-            href = rng.choice(['other.html', 'sub/x.html#f', '../up.html', '?q=2', '/root.html'])
+            href = rng.choice(['other.html', 'sub/x.html#f', '../up.html', '?q=2', '/root.html', 'doc.html#', '#',
+                               'doc.html?q=1#s1', 'other.html#s0'])
             kind, target = 'external', urljoin(BASE, href)
         else:
             fn = 'mem:f%d.txt' % rng.randint(0, 3)
@@ -945,6 +1080,58 @@ def gen_doc(rng, ascii_ids, mode=None):
         return '<div data-k=%s style="%swidth:%dpx">%s</div>' % (kk, css_transform(t), rng.choice([120, 160, 200]),
                                                                   '\n'.join(inner))
 
+    def uattr(chain, p=0.7):
+        """data-k and, mostly, a fresh unique id"""
+        kk = key()
+        if rng.random() < p and unext[0] < len(upool):
+            name = upool[unext[0]]
+            unext[0] += 1
+            exp['anchors'].append(dict(k=kk, name=name, chain=list(chain)))
+            return 'data-k=%s id=%s' % (kk, name)
+        return 'data-k=%s' % kk
+
+    def table(chain):
+        ncols = rng.choice([2, 3])
+        out = ['<table %s style="width:%dpx">' % (uattr(chain), rng.choice([120, 180]))]
+        if rng.random() < 0.5:
+            out.append('<caption %s>%s</caption>' % (uattr(chain), text(rng, 1, 2)))
+        if rng.random() < 0.8:
+            left = ncols
+            if rng.random() < 0.6:
+                n = rng.randint(1, left)
+                left -= n
+                out.append('<colgroup %s>%s</colgroup>' % (uattr(chain), ''.join(
+                    '<col %s style="width:%dpx">' % (uattr(chain), rng.choice([30, 50])) for _ in range(n))))
+            for _ in range(left):
+                out.append('<col %s>' % uattr(chain))
+
+        def row(cell):
+            return '<tr %s>%s</tr>' % (uattr(chain, 0.3), ''.join(
+                '<%s %s>%s</%s>' % (cell, uattr(chain, 0.2), rng.choice(WORDS[:4]), cell) for _ in range(ncols)))
+        if rng.random() < 0.6:
+            out.append('<thead %s>%s</thead>' % (uattr(chain), row('th')))
+        foot = '<tfoot %s>%s</tfoot>' % (uattr(chain), row('td')) if rng.random() < 0.4 else ''
+        out.append('<tbody %s>%s</tbody>' % (uattr(chain, 0.4), ''.join(row('td') for _ in range(rng.choice([1, 3, 8, 14])))))
+        out.append(foot + '</table>')
+        return ''.join(out)
+
+    def exotic(chain):
+        r = rng.random()
+        if r < 0.4:
+            return table(chain)
+        if r < 0.55:
+            return '<div %s style="float:%s;width:%dpx">%s</div><p>%s</p>' % (
+                uattr(chain, 0.9), rng.choice(['left', 'right']), rng.choice([40, 70]), text(rng, 1, 3), text(rng, 3, 9))
+        if r < 0.7:
+            return '<div style="position:relative"><div %s style="position:absolute;left:%dpx;top:%dpx">%s</div>%s</div>' % (
+                uattr(chain, 0.9), rng.choice([0, 20, 90]), rng.choice([0, 5, 30]), text(rng, 1, 2), text(rng, 2, 9))
+        if r < 0.85:
+            return '<p>%s <span %s style="display:inline-block;width:%dpx">%s</span> %s</p>' % (
+                text(rng, 1, 3), uattr(chain, 0.9), rng.choice([30, 60]), text(rng, 1, 3), link(chain))
+        tag = rng.choice(['ul', 'ol'])
+        return '<%s %s>%s</%s>' % (tag, uattr(chain, 0.5), ''.join(
+            '<li %s>%s</li>' % (uattr(chain, 0.6), text(rng, 1, 4)) for _ in range(rng.randint(1, 4))), tag)
+
     def paragraph(chain):
         parts = []
         for _ in range(rng.randint(1, 4)):
@@ -955,13 +1142,18 @@ def gen_doc(rng, ascii_ids, mode=None):
     def item(depth, chain):
         budget[0] -= 1
         r = rng.random()
-        p_cont = {'flat': 0, 'nested': 0.3, 'transform': 0.05, 'mixed': 0.15}[mode] if depth < 3 else 0
-        p_wrap = {'flat': 0, 'nested': 0.03, 'transform': 0.25, 'mixed': 0.1}[mode] if len(chain) < 2 and depth < 3 else 0
+        p_cont = {'flat': 0, 'nested': 0.3, 'transform': 0.05, 'mixed': 0.15, 'spellings': 0.05, 'boxes': 0.1}[mode] if depth < 3 else 0
+        p_wrap = {'flat': 0, 'nested': 0.03, 'transform': 0.25, 'mixed': 0.1, 'spellings': 0.05, 'boxes': 0.1}[mode] \
+            if len(chain) < 2 and depth < 3 else 0
+        p_exo = {'flat': 0.03, 'nested': 0.05, 'transform': 0.05, 'mixed': 0.1, 'spellings': 0.05, 'boxes': 0.3}[mode]
         if r < p_cont and budget[0] > 0:
             return container(depth, chain)
         r -= p_cont
         if r < p_wrap and budget[0] > 0:
             return wrapper(depth, chain)
+        r -= p_wrap
+        if r < p_exo:
+            return exotic(chain)
         r = rng.random()
         if r < 0.4 and nh[0] < max_h and len(exp['bookmarks']) < 80:
             return heading(chain)
@@ -1040,8 +1232,12 @@ def gen_doc(rng, ascii_ids, mode=None):
         head.append('<link rel=attachment href="%s"%s>' % (fn, '' if title is None else ' title="%s"' % esc(title)))
     html = '<html%s><head><meta charset=utf-8><style>%s%s</style>%s</head><body>%s</body></html>' % (
         '' if lang is None else ' lang=%s' % lang, CSS, ''.join(rules), ''.join(head), '\n'.join(body))
+    if basekind == 'element':
+        html = html.replace('<meta charset=utf-8>', '<meta charset=utf-8><base href="%s">' % BASE, 1)
     exp['mode'] = mode
-    return dict(html=html, files=exp['files'], base_url=BASE, zoom=rng.choice([1, 1, 2, 0.5])), exp
+    exp['basekind'] = basekind
+    return dict(html=html, files=exp['files'], base_url=BASE if basekind == 'arg' else None,
+                zoom=rng.choice([1, 1, 2, 0.5])), exp
 
 
 def close(a, b, tol=1e-6):
@@ -1183,7 +1379,14 @@ def judge_doc(case, exp, r):
                 # transforms them again
                 bad.append(('dest-of-bookmarked-element-transformed-twice', (name, x, y, pt, pt2)))
             else:
-                bad.append(('dest-is-first-element-with-that-name', (name, pref, x, y, pi, area, pt)))
+                grid = next(((gp, ga) for gp, ga, gc in boxes if gc in ('TableBox', 'InlineTableBox')), None)
+                gpt = chain_point(exp, geo, grid[0], first_chain.get(name), grid[1][0], grid[1][1]) if grid else None
+                if gpt is not None and pref == r['page_refs'][grid[0]] and close(x, gpt[0] * s, 1e-5) and \
+                        close(y, (heights[grid[0]] - gpt[1]) * s, 1e-5):
+                    # the anchor of a <table> sits on its grid box, not on the wrapper box that also holds the caption
+                    bad.append(('dest-of-table-with-caption-is-grid-box', (name, x, y, (pi, area), grid)))
+                else:
+                    bad.append(('dest-is-first-element-with-that-name', (name, pref, x, y, pi, area, pt)))
     # ---------------- links
     want_api = [[] for _ in heights]
     want_pdf = [[] for _ in heights]
@@ -1285,7 +1488,7 @@ def stream_render(run, rng, n):
     # Python str, the keys are written as bytes)
     docs.append(probe_nonascii_ids())
     outs = common.run_impl('impl_c18', 'render_doc', [d[0] for d in docs], limit=90, chunksize=2)
-    split = nb = nl = na = nsplitc = npseudo = ntl = nnest = 0
+    split = nb = nl = na = nsplitc = npseudo = ntl = nnest = nselfurl = npct = nexo = 0
     seen = set()
     for (case, exp), (st, o) in zip(docs, outs):
         if st == 'timeout':
@@ -1310,6 +1513,9 @@ def stream_render(run, rng, n):
         npseudo += sum(1 for b in eb if '::' in b['k'])
         ntl += sum(1 for l in exp['links'] if l.get('chain'))
         nnest += sum(1 for l in exp['links'] if len(l.get('chain') or ()) > 1)
+        nselfurl += len(__import__('re').findall(r'href="[^#"]+#[^"]', case['html'])) if exp.get('basekind') != 'none' else 0
+        npct += len(__import__('re').findall(r'href="[^"]*#[^"]*%[0-9A-Fa-f]{2}', case['html']))
+        nexo += sum(1 for a in exp['anchors'] if a['name'].startswith('u'))
         nb += len(exp['bookmarks'])
         nl += len(exp['links'])
         na += len(exp['anchors'])
@@ -1326,7 +1532,15 @@ def stream_render(run, rng, n):
     run.stream_info('render-monitor', bookmarks=nb, bookmarked_boxes_split_over_pages=split, links=nl, anchors=na,
                     split_containers_with_bookmarks_between_fragments=nsplitc, pseudo_element_bookmarks=npseudo,
                     links_under_transform=ntl, links_under_nested_transforms=nnest,
-                    rule='full renders (200x100px pages), modes flat/nested/transform/mixed: 0..80 bookmarks from h1-h6 '
+                    internal_links_spelled_as_document_url=nselfurl, internal_links_percent_encoded=npct,
+                    anchors_on_table_parts_floats_absolutes_inline_blocks_list_items=nexo,
+                    rule='full renders (200x100px pages), modes flat/nested/transform/mixed/spellings/boxes; the document URL '
+                         'comes from the base_url argument, from <base href> or from nowhere; internal links are written as '
+                         '#fragment or as one of 7 relative/absolute spellings of the document URL, fragments raw or '
+                         'percent-encoded per character (either case), ids with reserved and non-ASCII characters in mode '
+                         'spellings; unique ids on <table>, <caption>, <colgroup>, <col>, <thead>/<tfoot> (repeated on '
+                         'every page), <tbody>, <tr>, cells, floats, absolutely positioned boxes, inline-blocks, lists and '
+                         'list items, also inside transformed wrappers, with links to them; 0..80 bookmarks from h1-h6 '
                          '(bookmark-level overrides 1..9/none), from section/div/article containers (label by attr(title) or '
                          'string, nested up to 3 deep, spanning pages with bookmarked descendants between their fragments) '
                          'and from their ::before/::after boxes (block or inline, own level/label/state); closed states; '
@@ -1347,7 +1561,7 @@ def check(run):
     rng = random.Random(run.seed * 7919 + 18)
     thorough = run.tier == 'thorough'
     common.prove(run, 'C18', ['model/C18Bookmarks.vo', 'model/C18Outline.vo', 'model/C18Links.vo', 'model/C18Date.vo',
-                              'model/C18Aabb.vo'])
+                              'model/C18Aabb.vo', 'model/C18Href.vo'])
     run.trusted += ['Coq 8.16.1 kernel (coqc); vm_compute for the cases.v evaluation',
                     'hand models coq/model/C18*.v, tied to /repo only by the direct-call correspondence streams',
                     'harness stubs (SimpleNamespace pages/boxes, pydyf.PDF), its reader of pydyf objects/strings, '
@@ -1360,6 +1574,7 @@ def check(run):
     stream_outlines(run, rng, 400 * k)
     stream_links(run, rng, 500 * k)
     stream_aabb(run, rng, 300 * k)
+    stream_hrefs(run, rng, 400 * k)
     stream_dates(run, rng, 300 * k)
     stream_render(run, rng, 200 * k)
 
@@ -1398,6 +1613,18 @@ def replay(data):
         m = common.eval_cases('c18replay', PRE_LK, 'list box * list (list link * list anchor) * list Z',
                               [coq_lk_case(d['case'], o)], 'links_judge')
         print('replay: impl', o, 'mask', m)
+        return 1 if m[0] else 0
+    if st in ('hrefs', 'hrefs-probe'):
+        c = d['case']
+        (s, o), = common.run_impl('impl_c18', 'hrefs', [dict(base=c['base'], href=c['href'])])
+        print('replay: impl', s, o)
+        if st == 'hrefs-probe':
+            return 0 if (s == 'ok' and o == ['internal', 'x']) else 1
+        if s != 'ok':
+            return 1
+        c['attr'] = tuple(c['attr'])
+        m = common.eval_cases('c18replay', PRE_HR, 'option Z * attr * option (list Z) * linkres', [coq_href_case(c, o)], 'href_judge')
+        print('judge mask', m)
         return 1 if m[0] else 0
     if st == 'aabb':
         (s, o), = common.run_impl('impl_c18', 'aabb', [d['case']])
